@@ -13,6 +13,7 @@ import (
 	"crypto/ecdsa"
 	"crypto/elliptic"
 	crand "crypto/rand"
+	"crypto/sha1"
 	"crypto/tls"
 	"crypto/x509"
 	"crypto/x509/pkix"
@@ -298,6 +299,37 @@ func (c *srvPC) flush(rd *reader) {
 // ---------------------------------------------------------------------------------------------
 
 // cliPC logs every RTP datagram the client's listener reads, before the library processes it.
+// sentSet remembers the datagrams a socket sent: two RTP datagrams of one sender are never identical
+// (sequence numbers differ; with SRTP so do the authentication tags).
+type sentSet struct {
+	mu   sync.Mutex
+	seen map[[20]byte]int
+	dups []string
+}
+
+func (s *sentSet) add(b []byte) {
+	k := sha1.Sum(b)
+	s.mu.Lock()
+	defer s.mu.Unlock()
+	if s.seen == nil {
+		s.seen = map[[20]byte]int{}
+	}
+	if at, ok := s.seen[k]; ok {
+		if len(s.dups) < 5 {
+			_, seq, _, ssrc := parseHdr(b)
+			s.dups = append(s.dups, fmt.Sprintf("datagram %d = datagram %d (seq %d ssrc %d, %d bytes)", len(s.seen)+len(s.dups), at, seq, ssrc, len(b)))
+		}
+		return
+	}
+	s.seen[k] = len(s.seen)
+}
+
+func (s *sentSet) list() []string {
+	s.mu.Lock()
+	defer s.mu.Unlock()
+	return append([]string{}, s.dups...)
+}
+
 type cliPC struct {
 	*net.UDPConn
 	rd   *reader
@@ -308,6 +340,7 @@ type cliPC struct {
 func (c *cliPC) WriteTo(b []byte, addr net.Addr) (int, error) {
 	if c.port%2 == 0 && len(b) >= 12 && b[0]>>6 == 2 && b[1]&0x7f == backPT {
 		c.rd.backSent.Add(1)
+		c.rd.backSet.add(b)
 	}
 	return c.UDPConn.WriteTo(b, addr)
 }
@@ -323,6 +356,7 @@ func (c *cliPC) ReadFrom(b []byte) (int, net.Addr, error) {
 // pubPC counts the RTP datagrams the publishing client's writer goroutine really sent.
 type pubPC struct {
 	*net.UDPConn
+	set    *sentSet
 	sent   *atomic.Int64
 	port   int
 	faults *faults // loss / duplication / reordering on the publisher → server hop
@@ -331,6 +365,9 @@ type pubPC struct {
 func (c *pubPC) WriteTo(b []byte, addr net.Addr) (int, error) {
 	if c.port%2 == 0 && len(b) >= 12 {
 		c.sent.Add(1)
+		if c.set != nil && b[0]>>6 == 2 {
+			c.set.add(b)
+		}
 		if c.faults != nil {
 			return c.faults.send(c.UDPConn, b, addr)
 		}
